@@ -5,14 +5,19 @@ LEVEL_TEXT = ("Unbounded proof, function by function: each graph view (pairwise 
               "connected component, path validation, heuristic) has a postcondition against one definition of edge()/reach() and every "
               "obligation generated from the current source is discharged by z3 for all grids, cells and connection structures. "
               "The batch edge test (is_connection), from_adj_list (bits = exactly the rows' edges, size = max index + 1) and the forking / path-following partition of the solution "
-              "(exactly the solution indices and cells, in order, with more than one onward choice at an end and more than two elsewhere; the two lists are complementary) are proved as well, and so is get_nodes (entry k is the cell (k // C, k % C): every cell once, row-major; np.meshgrid / ravel / np.vstack / .T library contracts); the adjacency-list "
-              "view (connection_list_to_adj_list) is decided by the bounded stand-in only (all graphs up to 2x3, sampled/all 3x3, random larger), labelled bounded.")
-LEVEL_NOTE = ("Trusted: the pyvc encoding of Python/numpy, z3; lemma reach_induction (least-fixed-point principle); row-major index algebra (lemmas/Unravel.lean); list(set) enumeration contract; "
+              "(exactly the solution indices and cells, in order, with more than one onward choice at an end and more than two elsewhere; the two lists are complementary) are proved as well, and so is get_nodes (entry k is the cell (k // C, k % C): every cell once, row-major; np.meshgrid / ravel / np.vstack / .T library contracts). "
+              "The adjacency-list view is proved too: connection_list_to_adj_list (the np.ndindex loop with a counting invariant: row number = number of True cells before the cell in row-major order; ghost list of the cells' positions) "
+              "returns as many rows as there are connections, every row a connection of the maze, every connection in some row and none in two, lesser endpoint first unless shuffle_d1, for any draw of np.random.rand and any permutation "
+              "np.random.shuffle applies (grids up to 127x127: int8 coordinates); and the lemma adj_list_roundtrip - from_adj_list(as_adj_list(m)) has the identical connection structure whenever m is square and its last row or column "
+              "occurs in some connection - follows from the two contracts. The bounded stand-in (all graphs up to 2x3, sampled/all 3x3, random larger) stays as a cross-check, labelled bounded.")
+LEVEL_NOTE = ("Trusted: the pyvc encoding of Python/numpy, z3; lemma reach_induction (least-fixed-point principle); row-major index algebra in 2 and 3 dimensions (lemmas/Unravel.lean); count(g) = number of True cells = row-major prefix sum of the indicator (definition of the ghost count); np.random.shuffle permutes rows; np.ndindex is row-major; list(set) enumeration contract; "
               "numpy int64 treated as mathematical integers; partial correctness (no termination).")
 TECHNIQUE = "contract-based deductive verification of the real functions (AST-derived VCs, z3) + bounded run-time comparison with an independent spec"
-CONTRACT_MODULES = ["contracts.lattice_maze", "contracts.token_utils", "contracts.paths"]
+CONTRACT_MODULES = ["contracts.lattice_maze", "contracts.token_utils", "contracts.paths", "contracts.adjlist"]
 F = "maze_dataset/maze/lattice_maze.py"
 PROVE = [
+    ("maze_dataset/token_utils.py", "connection_list_to_adj_list"),
+    ("/verif/contracts/lemmas_src.py", "adj_list_roundtrip"),
     (F, "LatticeMaze.get_nodes"),
     (F, "LatticeMaze.heuristic"),
     (F, "LatticeMaze.nodes_connected"),
